@@ -19,7 +19,7 @@
             a cross-node in-flight real allocation orphaned on its node by application / all-allocations / ask removal):
             the orphan outlives the application (finding C10-orphaned-inflight-real, same defect as C03 trigger 5) *)
 From Coq Require Import List ZArith NArith Bool.
-From YK Require Import Base.Res Core.Obs Core.AppLife Core.AppEvents Core.Ledger.
+From YK Require Import Base.Res Core.Obs Core.AppLife Core.AppEvents Core.Ledger Core.Ledger2.
 Import ListNotations.
 Open Scope N_scope.
 
@@ -225,8 +225,8 @@ Definition newly (f : ostate -> bool) (pre post : ostate) : bool := negb (f pre)
 
 (* applications hit by trigger 5 so far: the application the removing operation addresses *)
 Definition orphaned_app (pre : ostate) (st : ostep) : list N :=
-  if xnode_removal_trigger pre st then
-    match st_op st with OpAppRemove id => [id] | OpRelease app _ _ => [app] | _ => [] end
+  if xnode_removal_trigger pre st || xnode_timeout_trigger pre st then
+    match st_op st with OpAppRemove id => [id] | OpRelease app _ _ => [app] | OpFirePh id => [id] | _ => [] end
   else [].
 Definition window_orphan (orph : list N) (post : ostate) : bool :=
   forallb completed_self_clean (s_apps post ++ s_completed post) &&
